@@ -171,7 +171,7 @@ for _p, _src in (("C02", "C13"), ("C03", "C13"), ("C04", "C15")):
 # the handle that repin takes is what keeps a guard-only participant (C20) from being finalized mid-repin
 # "a pinned participant sees at most one advance" (C14) needs that its epoch is never re-published while a guard lives:
 # who may call repin_without_collect, the repin sequence, and the outermost-only clearing
-for _p, _rules in (("C11", ["CAS-EPOCH-BLIND"]), ("C20", ["EBR-REACTIVATE", "REC-NO-UNBOUNDED", "REC-COLLECT-REENTRY"]),
+for _p, _rules in (("C11", ["CAS-EPOCH-BLIND", "LINK-STAMP", "LINK-TAG"]), ("C20", ["EBR-REACTIVATE", "REC-NO-UNBOUNDED", "REC-COLLECT-REENTRY"]),
                    ("C18", ["REC-NO-UNBOUNDED", "EBR-DEFAULT-COLLECTOR"]), ("C19", ["BIT-TAGGED"]),
                    ("C01", ["CW-COUNT-OVERFLOW"]), ("C03", ["CW-COUNT-OVERFLOW"]),
                    ("C02", ["CW-UPGRADE-TRACE", "OWN-PRIMITIVES", "LINK-TAG", "CW-WINDOW-FRESH", "CW-CASCADE-FOREIGN-GUARD"]), ("C05", ["CW-UPGRADE-TRACE", "CW-COUNT-OVERFLOW"]),
@@ -185,7 +185,7 @@ for _p, _rules in (("C11", ["CAS-EPOCH-BLIND"]), ("C20", ["EBR-REACTIVATE", "REC
 # "the same object" only while the expected WeakSnapshot's block cannot be recycled, i.e. the deferred-free protocol
 for _p, _rules in (("C01", ["CW-STAMP-ON-DEC", "CW-STAMP-PINNED", "CW-STAMP-MODULAR", "LINK-STAMP", "CW-CASCADE-MERGE",
                             "CW-CASCADE-DECISION", "CW-UPGRADE-TRACE", "CW-WINDOW-FRESH"]),
-                   ("C09", ["CW-WEAK-PROTOCOL", "CW-DESTRUCT-ORDER"])):
+                   ("C09", ["CW-WEAK-PROTOCOL", "CW-DESTRUCT-ORDER", "CW-DEFERRED-ONLY"]), ("C08", ["CW-DEFERRED-ONLY"])):
     registry.PROPS[_p]["rules"] += [x for x in _rules if x not in registry.PROPS[_p]["rules"]]
 # ... and the epoch side of it too: whatever un-protects a Snapshot (a re-pin under a live guard, a bag that expires
 # early) un-protects the Rc that `counted` makes of it.  C01 includes the rules of C02 (which include those of C13).
@@ -201,13 +201,19 @@ for _p, _rules in (("C01", ["CW-ALLOC-INIT", "CW-DEFER-WRAPPER"]), ("C02", ["EBR
                    ("C05", ["DBG-PURE"]), ("C13", ["DBG-PURE"]), ("C16", ["DBG-PURE"]), ("C01", ["DBG-PURE"]),
                    # "user tags are preserved exactly and truncated to the alignment bits" (C08/C09) is the bit-level round trip;
                    # "the reference upgrade returns obeys C02" (C05) includes the signature that ties it to the guard
-                   ("C08", ["BIT-TAGGED"]), ("C09", ["BIT-TAGGED"]), ("C05", ["TY-SIG"]),
+                   ("C08", ["BIT-TAGGED"]), ("C09", ["BIT-TAGGED"]),
+                   # upgrade decides by reading the block's count word: "once an upgrade has failed every later one fails"
+                   # needs the block to outlive every Weak (no reuse under a stale Weak)
+                   ("C05", ["TY-SIG", "CW-WEAK-PROTOCOL"]),
                    # the queue's head CAS (and the list's unlink CAS) are ABA-free only while a consumer that holds a
                    # (head, next) snapshot stays pinned: whatever re-pins a thread under a live guard breaks them
                    ("C17", ["EBR-REACTIVATE", "EBR-COLLECT-OUTERMOST", "EBR-GUARD-COUNT", "EBR-INIT", "CW-DEFER-WRAPPER"]),
                    ("C18", ["EBR-REACTIVATE", "EBR-COLLECT-OUTERMOST", "EBR-GUARD-COUNT", "CW-DEFER-WRAPPER"]),
                    # "nodes still referenced from elsewhere are skipped and survive": the cascade tells by the count alone
-                   ("C06", ["MOD-AGING", "OWN-BALANCE", "OWN-PRIMITIVES"]), ("C15", ["EBR-TUNABLES"]), ("C04", ["EBR-TUNABLES"]), ("C20", ["EBR-TUNABLES"]),
+                   ("C06", ["MOD-AGING", "OWN-BALANCE", "OWN-PRIMITIVES"]),
+                   # the depth cap counts frames of ONE cascade: an attempt run synchronously inside a payload destructor
+                   # (an unprotected guard runs deferred closures at once) starts a nested cascade at depth 0
+                   ("C07", ["CW-DEFERRED-ONLY"]), ("C15", ["EBR-TUNABLES"]), ("C04", ["EBR-TUNABLES"]), ("C20", ["EBR-TUNABLES"]),
                    ("C20", ["EBR-FLUSH-SCHEDULES"]),
                    ("C13", ["EBR-INIT"]), ("C14", ["EBR-INIT"]), ("C16", ["EBR-INIT"]), ("C18", ["EBR-INIT"]), ("C20", ["EBR-INIT"])):
     registry.PROPS[_p]["rules"] += [x for x in _rules if x not in registry.PROPS[_p]["rules"]]
